@@ -11,11 +11,30 @@
 import FocaModel.Proofs.Inv
 namespace Foca
 
-/-- `f` leaves membership, counters, both backlogs, identity, incarnation and policy alone (it may touch
-    connection state, token, probe, configuration, send buffer, handler state) -/
+/-- the probe keeps its target or drops it -/
+def ProbeKeep (p p' : Probe) : Prop := p'.direct = p.direct ∨ p'.direct = none
+
+theorem ProbeKeep.receiveAck (p : Probe) (src : Id) (n : Nat) : ProbeKeep p (p.receiveAck src n) := by
+  unfold Probe.receiveAck ProbeKeep; split <;> exact Or.inl rfl
+
+theorem ProbeKeep.receiveIndirectAck (p : Probe) (src : Id) (n : Nat) : ProbeKeep p (p.receiveIndirectAck src n) := by
+  unfold Probe.receiveIndirectAck ProbeKeep
+  split
+  · exact Or.inl rfl
+  · split <;> exact Or.inl rfl
+
+theorem ProbeKeep.takeFailed (p : Probe) : ProbeKeep p p.takeFailed.2 := by
+  unfold Probe.takeFailed ProbeKeep; split
+  · exact Or.inr rfl
+  · exact Or.inl rfl
+
+/-- `f` leaves membership, counters, both backlogs, identity, incarnation and policy alone, and does not give
+    the probe a new target (it may touch connection state, token, the rest of the probe, configuration, send
+    buffer, handler state) -/
 def CtlKeep (f : State → State) : Prop :=
   ∀ s, (f s).ms = s.ms ∧ (f s).numActive = s.numActive ∧ (f s).updates = s.updates ∧
-    (f s).custom = s.custom ∧ (f s).cursor = s.cursor ∧ (f s).id = s.id ∧ (f s).inc = s.inc ∧ (f s).policy = s.policy
+    (f s).custom = s.custom ∧ (f s).cursor = s.cursor ∧ (f s).id = s.id ∧ (f s).inc = s.inc ∧
+    (f s).policy = s.policy ∧ ProbeKeep s.probe (f s).probe
 
 /-- `f` leaves membership, counters and both backlogs alone (it may also touch identity, incarnation, policy) -/
 def CtlOnly (f : State → State) : Prop :=
@@ -28,11 +47,15 @@ def CustomOnly (f : State → State) : Prop :=
     (f s).id = s.id ∧ (f s).inc = s.inc ∧ (f s).conn = s.conn ∧ (f s).token = s.token ∧ (f s).cfg = s.cfg ∧
     (f s).policy = s.policy ∧ (f s).probe = s.probe ∧ (f s).sendCap = s.sendCap
 
-/-- leaf obligations, identity/incarnation writers excluded -/
-structure Base (E : Env) (P : State → Prop) : Prop where
-  membersApply : ∀ u, Pres P (membersApply u)
-  membersApplyExistingIf : ∀ u cond, Pres P (membersApplyExistingIf u cond)
-  membersNext : Pres P membersNext
+/-- leaf obligations, identity/incarnation writers excluded. `okU u`: the update `u` may be stored (a pure
+    side condition; `fun _ => True` for invariants that accept every update). -/
+structure Base (E : Env) (P : State → Prop) (okU : Member → Prop) : Prop where
+  okDown : ∀ id inc, okU ⟨id, inc, .down⟩
+  membersApply : ∀ u, okU u → Pres P (membersApply u)
+  membersApplyExistingIf : ∀ u cond, okU u → Pres P (membersApplyExistingIf u cond)
+  /-- the member `next` returns may become the probe target -/
+  membersNext : PresR P (fun r => ∀ m, r = some m → okU ⟨m.id, m.inc, .suspect⟩) membersNext
+  startProbe : ∀ m, okU ⟨m.id, m.inc, .suspect⟩ → Pres P (modS fun s => { s with probe := s.probe.start m })
   removeDown : ∀ id, Pres P (modS fun s => { s with ms := removeIfDown s.ms id })
   sendMessage : ∀ d m, Pres P (sendMessage E d m)
   addUpdate : ∀ m, Pres P (addUpdate E m)
@@ -40,13 +63,14 @@ structure Base (E : Env) (P : State → Prop) : Prop where
   modCustom : ∀ f, CustomOnly f → Pres P (modS f)
 
 section
-variable {E : Env} {P : State → Prop} (B : Base E P)
+variable {E : Env} {P : State → Prop} {okU : Member → Prop} (B : Base E P okU)
 include B
 
 theorem Base.ctl (f : State → State)
     (h : ∀ s, (f s).ms = s.ms ∧ (f s).numActive = s.numActive ∧ (f s).updates = s.updates ∧
       (f s).custom = s.custom ∧ (f s).cursor = s.cursor ∧ (f s).id = s.id ∧ (f s).inc = s.inc ∧
-      (f s).policy = s.policy := by intro s; exact ⟨rfl, rfl, rfl, rfl, rfl, rfl, rfl, rfl⟩) :
+      (f s).policy = s.policy ∧ ProbeKeep s.probe (f s).probe := by
+        intro s; exact ⟨rfl, rfl, rfl, rfl, rfl, rfl, rfl, rfl, by first | exact Or.inl rfl | exact Or.inr rfl⟩) :
     Pres P (modS f) := B.modCtl f h
 
 theorem Base.chooseLoop (w : Nat) (pick : Member → Bool) (l out : List Member) (seen : Nat) :
@@ -109,10 +133,10 @@ theorem Base.handleApplySummary (sm : Summary) (u : Member) (b : Bool) : Pres P 
   pres
   all_goals first | exact B.addUpdate _ | skip
 
-theorem Base.applyUpdate (u : Member) (b : Bool) : Pres P (Foca.applyUpdate E u b) := by
+theorem Base.applyUpdate (u : Member) (b : Bool) (hu : okU u) : Pres P (Foca.applyUpdate E u b) := by
   unfold Foca.applyUpdate
   pres
-  · exact B.membersApply u
+  · exact B.membersApply u hu
   · exact B.handleApplySummary _ _ _
 
 theorem Base.broadcastLoop (ds : List Id) : Pres P (Foca.broadcastLoop E ds) := by
@@ -147,16 +171,6 @@ theorem Base.setConfig (cfg : Config) : Pres P (Foca.setConfig cfg) := by
   pres
   exact B.ctl _
 
-theorem Base.probeRandomMember : Pres P (Foca.probeRandomMember E) := by
-  unfold Foca.probeRandomMember
-  pres
-  all_goals first
-    | exact B.ctl _
-    | exact B.membersApplyExistingIf _ _
-    | exact B.handleApplySummary _ _ _
-    | exact B.membersNext
-    | exact B.sendMessage _ _
-
 theorem Base.pingReqLoop (probed : Id) (ds : List Id) : Pres P (Foca.pingReqLoop E probed ds) := by
   induction ds with
   | nil => unfold Foca.pingReqLoop; exact Pres.pure _
@@ -166,22 +180,6 @@ theorem Base.pingReqLoop (probed : Id) (ds : List Id) : Pres P (Foca.pingReqLoop
     · exact B.ctl _
     · exact B.sendMessage _ _
     · exact ih
-
-theorem Base.handleTimer (t : Timer) : Pres P (Foca.handleTimer E t) := by
-  unfold Foca.handleTimer
-  pres
-  all_goals first
-    | exact B.ctl _
-    | exact B.removeDown _
-    | exact B.chooseLoop _ _ _ _ _
-    | exact B.pingReqLoop _ _
-    | exact B.membersApplyExistingIf _ _
-    | exact B.handleApplySummary _ _ _
-    | exact B.adjustConnectionState
-    | exact B.sendMessage _ _
-    | exact B.probeRandomMember
-    | exact B.chooseAndSend _ _
-    | exact B.announceToDown _
 
 theorem Base.customLoop (sender : Option Id) (fuel : Nat) (data : Bytes) : Pres P (Foca.customLoop E sender fuel data) := by
   induction fuel generalizing data with
@@ -201,20 +199,80 @@ theorem Base.handleCustomBroadcasts (data : Bytes) (sender : Option Id) :
 
 end
 
-/-- `Base` plus `handle_self_update` -/
-structure Full (E : Env) (P : State → Prop) : Prop extends Base E P where
+/-- `Base` plus `handle_self_update` and the three places where an update is built from the state that was
+    read: the sender of a datagram, an update about another address, the failed probe target -/
+structure Full (E : Env) (P : State → Prop) (okU : Member → Prop) : Prop extends Base E P okU where
   handleSelfUpdate : ∀ inc st, Pres P (handleSelfUpdate E inc st)
+  senderOk : ∀ (s0 : State) (h : Header), P s0 → (h.src == s0.id || h.src.addr == s0.id.addr) = false →
+    okU ⟨h.src, h.srcInc, .alive⟩
+  applyOk : ∀ (s0 : State) (u : Member), P s0 → (u.id == s0.id) = false → (s0.id.addr == u.id.addr) = false → okU u
+  failedOk : ∀ (s0 : State) (m : Member), P s0 → s0.probe.takeFailed.1 = some m → okU ⟨m.id, m.inc, .suspect⟩
 
 section
-variable {E : Env} {P : State → Prop} (F : Full E P)
+variable {E : Env} {P : State → Prop} {okU : Member → Prop} (F : Full E P okU)
 include F
+
+theorem Full.probeSuspectFailed : Pres P (Foca.probeSuspectFailed E) := by
+  unfold Foca.probeSuspectFailed
+  refine Pres.getS_bind (fun s => PresAt.assume (fun hs => ?_))
+  dsimp only
+  refine PresAt.bind (PresAt.modS (fun _ => ?_)) (fun _ => ?_)
+  · exact Pres.modS_at (F.toBase.ctl (fun s => { s with probe := s.probe.takeFailed.2 })
+      (fun s => ⟨rfl, rfl, rfl, rfl, rfl, rfl, rfl, rfl, ProbeKeep.takeFailed _⟩)) s hs
+  · split
+    · rename_i failed hf
+      refine Pres.bind (F.membersApplyExistingIf _ _ (F.failedOk s failed hs hf)) (fun r => ?_)
+      split
+      · refine Pres.bind (F.toBase.handleApplySummary _ _ _) (fun _ => ?_)
+        split
+        · exact Pres.bind Pres.getS (fun _ => Pres.emit _)
+        · exact Pres.pure _
+      · exact Pres.pure _
+    · exact Pres.pure _
+
+theorem Full.probeStartNext : Pres P (Foca.probeStartNext E) := by
+  unfold Foca.probeStartNext
+  refine PresR.bind F.membersNext (fun r hr => ?_)
+  split
+  · rename_i member
+    refine Pres.bind (F.startProbe member (hr member rfl)) (fun _ => ?_)
+    exact Pres.bind Pres.getS (fun _ => Pres.bind (F.sendMessage _ _) (fun _ => Pres.emit _))
+  · exact Pres.pure _
+
+theorem Full.probeRandomMember : Pres P (Foca.probeRandomMember E) := by
+  unfold Foca.probeRandomMember
+  pres
+  all_goals first
+    | exact F.toBase.ctl _
+    | exact F.probeSuspectFailed
+    | exact F.probeStartNext
+
+theorem Full.handleTimer (t : Timer) : Pres P (Foca.handleTimer E t) := by
+  unfold Foca.handleTimer
+  pres
+  all_goals first
+    | exact F.toBase.ctl _
+    | exact F.removeDown _
+    | exact F.toBase.chooseLoop _ _ _ _ _
+    | exact F.toBase.pingReqLoop _ _
+    | exact F.membersApplyExistingIf _ _ (F.okDown _ _)
+    | exact F.toBase.handleApplySummary _ _ _
+    | exact F.toBase.adjustConnectionState
+    | exact F.sendMessage _ _
+    | exact F.probeRandomMember
+    | exact F.toBase.chooseAndSend _ _
+    | exact F.toBase.announceToDown _
 
 theorem Full.applyOne (u : Member) (b : Bool) : Pres P (Foca.applyOne E u b) := by
   unfold Foca.applyOne
-  pres
-  all_goals first
-    | exact F.handleSelfUpdate _ _
-    | exact F.toBase.applyUpdate _ _
+  refine Pres.getS_with (fun s hs => ?_)
+  split
+  · exact F.handleSelfUpdate _ _
+  · rename_i h1
+    split
+    · exact Pres.bind (F.toBase.applyUpdate _ _ (F.okDown _ _)) (fun _ => Pres.pure _)
+    · rename_i h2
+      exact Pres.bind (F.toBase.applyUpdate _ _ (F.applyOk s u hs (by simpa using h1) (by simpa using h2))) (fun _ => Pres.pure _)
 
 theorem Full.applyLoop (b : Bool) (us : List Member) : Pres P (Foca.applyLoop E b us) := by
   induction us with
@@ -234,6 +292,8 @@ theorem Full.reactToMessage (h : Header) : Pres P (Foca.reactToMessage E h) := b
   pres
   all_goals first
     | exact F.toBase.ctl _
+    | exact F.toBase.ctl _ (fun s => ⟨rfl, rfl, rfl, rfl, rfl, rfl, rfl, rfl, ProbeKeep.receiveAck _ _ _⟩)
+    | exact F.toBase.ctl _ (fun s => ⟨rfl, rfl, rfl, rfl, rfl, rfl, rfl, rfl, ProbeKeep.receiveIndirectAck _ _ _⟩)
     | exact F.sendMessage _ _
     | exact F.handleSelfUpdate _ _
 
@@ -251,13 +311,27 @@ theorem Full.replyStage (h : Header) (cres : Option ErrKind) : Pres P (Foca.repl
 
 theorem Full.handleData (data : Bytes) : Pres P (Foca.handleData E data) := by
   unfold Foca.handleData
-  pres
-  all_goals first
-    | exact F.toBase.applyUpdate _ _
-    | exact F.inactiveSender _
-    | exact F.applyMany _ _
-    | exact Pres.attempt (F.toBase.handleCustomBroadcasts _ _)
-    | exact F.replyStage _ _
+  refine Pres.getS_with (fun s hs => ?_)
+  split
+  · exact Pres.throwE _
+  · split
+    · exact Pres.throwE _
+    · rename_i h rest _
+      split
+      · exact Pres.throwE _
+      · rename_i hsrc
+        dsimp only
+        split
+        · exact Pres.throwE _
+        · split
+          · exact Pres.pure _
+          · split
+            · exact Pres.throwE _
+            · refine Pres.bind (F.toBase.applyUpdate _ _ (F.senderOk s h hs (by simpa using hsrc))) (fun senderActive => ?_)
+              split
+              · exact F.inactiveSender _
+              · exact Pres.bind (F.applyMany _ _) (fun _ =>
+                  Pres.bind (Pres.attempt (F.toBase.handleCustomBroadcasts _ _)) (fun _ => F.replyStage _ _))
 
 /-- every public call; the two identity-changing calls are hypotheses -/
 theorem Full.runOp (op : Op)
@@ -269,7 +343,7 @@ theorem Full.runOp (op : Op)
     | exact hreuse rfl
     | exact F.applyMany _ _
     | exact F.handleData _
-    | exact F.toBase.handleTimer _
+    | exact F.handleTimer _
     | exact F.sendMessage _ _
     | exact F.toBase.gossip
     | exact F.toBase.broadcastApi
@@ -295,10 +369,17 @@ section
 variable {E : Env} {P : State → Prop} (L : Leaves E P)
 include L
 
-theorem Leaves.base : Base E P where
-  membersApply := L.membersApply
-  membersApplyExistingIf := L.membersApplyExistingIf
-  membersNext := L.membersNext
+theorem Leaves.base : Base E P (fun _ => True) where
+  okDown := fun _ _ => trivial
+  membersApply := fun u _ => L.membersApply u
+  membersApplyExistingIf := fun u cond _ => L.membersApplyExistingIf u cond
+  membersNext := ⟨fun c hc => by
+    have := L.membersNext.run c hc
+    cases hm : Foca.membersNext c with
+    | stuck x => trivial
+    | err e c' => rw [hm] at this; exact this
+    | ok a c' => rw [hm] at this; exact ⟨this, fun _ _ => trivial⟩⟩
+  startProbe := fun m _ => L.modCtl _ (fun s => ⟨rfl, rfl, rfl, rfl, rfl⟩)
   removeDown := L.removeDown
   sendMessage := L.sendMessage
   addUpdate := L.addUpdate
@@ -342,9 +423,12 @@ theorem Leaves.reuseDownIdentity : Pres P Foca.reuseDownIdentity := by
   pres
   exact L.reset
 
-theorem Leaves.full : Full E P where
+theorem Leaves.full : Full E P (fun _ => True) where
   toBase := L.base
   handleSelfUpdate := L.handleSelfUpdate
+  senderOk := fun _ _ _ _ => trivial
+  applyOk := fun _ _ _ _ _ => trivial
+  failedOk := fun _ _ _ _ => trivial
 
 theorem Leaves.runOp (op : Op) : Pres P (Foca.runOp E op) :=
   L.full.runOp op (fun _ _ _ => L.changeIdentity _ _) (fun _ => L.reuseDownIdentity)
